@@ -266,6 +266,7 @@ def c05_run(ctx):
 
 def c14_run(ctx):
     ctx.model_check("KeepAlive.tla", "MC_keepaliveQ.cfg" if ctx.tier == "quick" else "MC_keepalive.cfg", None)
+    ctx.model_check("KeepAlive.tla", "MC_keepaliveP.cfg", None)   # longer permissions, PermissionRefreshInterval 12 min
     n = 24 if ctx.tier == "quick" else 300
     ctx.trace_validate("keepalive", "TestKeepAliveTrace", "TraceKeepAlive.tla", "TraceKeepAlive.cfg", n, maxviol=12)
 
